@@ -2,4 +2,5 @@ CONSTANT Suite = "shapes1"
 INIT Init
 NEXT Next
 INVARIANT Debug
+INVARIANT Emit
 CHECK_DEADLOCK FALSE
